@@ -124,6 +124,16 @@ func c15Build(c c15Config) *c15World {
 					_, _ = ctx.ResponseWriter().Write([]byte("partial"))
 				case "after-next":
 					ctx.Next()
+				case "after-failed-hijack-and-push":
+					// capabilities the underlying writer does not have: the calls fail and send nothing
+					if hj, ok := ctx.ResponseWriter().(http.Hijacker); ok {
+						_, _, _ = hj.Hijack()
+					}
+					if ps, ok := ctx.ResponseWriter().(http.Pusher); ok {
+						_ = ps.Push("/other", nil)
+					}
+				case "after-flush":
+					ctx.ResponseWriter().Flush() // commits the implicit 200
 				}
 				if k := ctx.Request().Header.Get("X-Kind"); k != "" {
 					c15PanicWith(k) // this request panics with another kind of value than the configured one
@@ -259,7 +269,7 @@ func c15CheckPanic(c c15Config, rs c15Resp) (bad, kind string) {
 	switch c.Phase {
 	case "after-status":
 		wantStatus = 201
-	case "after-body", "after-next":
+	case "after-body", "after-next", "after-flush":
 		wantStatus = 200
 	}
 	if c.Phase == "after-next" && strings.HasSuffix(c.Style, "-action") {
@@ -340,7 +350,7 @@ func c15Configs(thorough bool) []c15Config {
 	if thorough {
 		maxN = 5
 	}
-	phases := []string{"before-write", "after-status", "after-body", "after-next", "unresolved-dependency"}
+	phases := []string{"before-write", "after-status", "after-body", "after-next", "unresolved-dependency", "after-failed-hijack-and-push", "after-flush"}
 	values := []string{"string", "error", "runtime", "struct", "abort", "nil-error-pointer", "panicking-stringer"}
 	styles := []string{"use", "route", "group", "use-action", "route-action"}
 	for n := 2; n <= maxN; n++ {
@@ -350,6 +360,9 @@ func c15Configs(thorough bool) []c15Config {
 					for bm := 0; bm < 1<<(p-r-1); bm++ {
 						for _, v := range values {
 							if ph == "unresolved-dependency" && v != "string" {
+								continue
+							}
+							if (ph == "after-failed-hijack-and-push" || ph == "after-flush") && v != "string" && v != "runtime" && !thorough {
 								continue
 							}
 							for _, st := range styles {
@@ -405,7 +418,7 @@ func c15Run(r *core.Run) {
 	if !r.Thorough() {
 		seqs = []string{"P", "PN", "PPN", "NPN", "PNP", "PQ", "QPQ", "PPQ"}
 	}
-	r.Rule = "engine E: stacks of 2..4 (thorough 5) handlers with Recovery at every position, logging middleware before it, pass-through handlers (with and without their own Next()) between it and the panicking handler at every later position; panic phase {before any write, after a status, after body bytes, after Next() returned, unresolved dependency} x value {string, error, runtime error, struct, http.ErrAbortHandler, typed-nil error pointer, value whose String() panics} x registration style {application middleware, route handlers, middleware+group, middleware or route handlers with the panicking handler as the final Action} x {default, application-mapped ReturnHandler} x environment {development, production, test} x request sequences over {panicking, normal}; oracle: nothing escapes, status 500 iff nothing had been sent, detail in the body iff development, outer middleware completes, normal requests equal a fresh instance; non-trivial = sequence with >=2 requests or a panic after something was written"
+	r.Rule = "engine E: stacks of 2..4 (thorough 5) handlers with Recovery at every position, logging middleware before it, pass-through handlers (with and without their own Next()) between it and the panicking handler at every later position; panic phase {before any write, after a status, after body bytes, after Next() returned, unresolved dependency, after a failed Hijack and Push, after Flush} x value {string, error, runtime error, struct, http.ErrAbortHandler, typed-nil error pointer, value whose String() panics} x registration style {application middleware, route handlers, middleware+group, middleware or route handlers with the panicking handler as the final Action} x {default, application-mapped ReturnHandler} x environment {development, production, test} x request sequences over {panicking, normal}; oracle: nothing escapes, status 500 iff nothing had been sent, detail in the body iff development, outer middleware completes, normal requests equal a fresh instance; non-trivial = sequence with >=2 requests or a panic after something was written"
 	r.Bounds["configs"] = len(cfgs)
 	r.Bounds["sequences"] = seqs
 	r.Assumptions = []string{"panic(nil) is outside the statement ('any non-nil value')", "environments are process-global: the three environments run as sequential phases"}
